@@ -12,6 +12,7 @@ malformed term), then more valid elements.  The code may keep the elements befor
 * the state is one of: the state before, or the state after the SAME call with the first k valid elements only (k <= number of
   elements before the failing one) - reported only when it is neither AND the state is not even readable consistently; otherwise
   the outcome is ticked (`bulk:state:…`);
+* the SAME call issued a second time on the model the first one left behind (its new labels exist now) leaves the structure intact;
 * the model is still USABLE: a follow-up of valid calls (a new variable, a linear and a quadratic term on the newest old label and
   the new one, a read back of both, a file round trip for constrained models) succeeds and the audit holds again.
 
@@ -232,6 +233,15 @@ for i, (kind, fmt, pre, bad, suf) in enumerate(cases):
     if res['state'] == 'other':
         res['before'], res['after'] = before[:700], after[:700]
     try:
+        # the same call once more on the model it left behind (its new labels exist now: the consistency checks run where the
+        # first call appended), then the valid follow-up calls
+        try:
+            exec(call, {'m': m, 'dimod': dimod, 'np': np})
+        except Exception:
+            pass
+        st = structure(m)
+        if st:
+            res.update(result='malformed', what='after the same call a second time: ' + st); out.append(res); continue
         follow_up(m, kind)
         st = structure(m)
         if st:
@@ -253,6 +263,12 @@ print('raised', repr(raised))
 st = structure(m)
 assert st is None, st
 assert state(m) == state(m), 'two consecutive reads differ'
+try:
+    @@CALL@@
+except Exception as e:
+    print('second call raised', repr(e))
+st = structure(m)
+assert st is None, st
 follow_up(m, @@KIND@@)
 st = structure(m)
 assert st is None, st
